@@ -16,9 +16,9 @@ Grow == /\ phase = "grow" /\ Len(inv) < MaxEntries
         /\ UNCHANGED <<out, inn, form, phase, l, nbad>>
 
 Emit == /\ phase = "grow"
-        /\ \E f \in 1..4 :
+        /\ \E f \in 1..4 : \E vm \in (IF f \in {3, 4} /\ HasRepeat(inv) THEN {"pos", "tgt"} ELSE {"pos"}) :
               /\ form' = f
-              /\ PrintT(ToJson([inv |-> inv, form |-> f, den |-> LET d == Denote(inv, f) IN
+              /\ PrintT(ToJson([inv |-> inv, form |-> f, vm |-> vm, den |-> LET d == Denote(inv, f, vm) IN
                                    IF d.panic # 0 THEN [panic |-> d.panic]
                                    ELSE [panic |-> 0, keys |-> SetToSeq(d.keys), vals |-> d.vals, out |-> d.out, inn |-> d.inn]]))
         /\ phase' = "emitted" /\ UNCHANGED <<out, inn, inv, l, nbad>>
@@ -27,7 +27,7 @@ MNext == Grow \/ Emit
 MSpec == MInit /\ [][MNext]_mvars
 
 \* the fold the macros perform denotes what C14 says, for every form
-FoldOK == phase = "grow" => \A f \in 1..4 : MacroOK(inv, f, Denote(inv, f))
+FoldOK == phase = "grow" => \A f \in 1..4 : \A vm \in {"pos", "tgt"} : MacroOK(inv, f, vm, Denote(inv, f, vm))
 
 \* ---- stage 2: verdicts for observed results that differ from the denotation ----
 Rec == ndJsonDeserialize(IOEnv.TRACE)
@@ -38,7 +38,7 @@ ToObs(o) == IF o.panic # 0 THEN [panic |-> o.panic]
 TInit == out = Empty /\ inn = Empty /\ inv = <<>> /\ form = 1 /\ phase = "trace" /\ l = 1 /\ nbad = 0
 TNext == /\ l <= Len(Rec) /\ l' = l + 1
          /\ LET ev == Rec[l]
-                bad == IF ev.rt = "fail" THEN TRUE ELSE ~MacroOK(ToInv(ev.inv), ev.form, ToObs(ev.obs)) IN
+                bad == IF ev.rt = "fail" THEN TRUE ELSE ~MacroOK(ToInv(ev.inv), ev.form, ev.vm, ToObs(ev.obs)) IN
             /\ IF bad THEN PrintT(<<"REJECT", l, <<IF ev.rt = "fail" THEN "macro-failed-unexpectedly" ELSE "result-is-not-the-denoted-graph">>>>) ELSE TRUE
             /\ nbad' = IF bad THEN nbad + 1 ELSE nbad
          /\ UNCHANGED <<out, inn, inv, form, phase>>
